@@ -179,7 +179,7 @@ class Ctx:
 
 
 def corr_run(ctx, name, vh_args, component_desc, nontrivial=lambda c: True, spec_component=None, spec_tags=None, has_oracle=False, max_samples=3,
-             oracle_prefix=None, diag_component=None, diag_mask=None):
+             oracle_prefix=None, diag_component=None, diag_mask=None, oracle_exclude=None):
     """run a harness sub-command that writes cases.txt/cases.json(/spec.txt), evaluate the model on
     every case and report differences.
 
@@ -237,6 +237,8 @@ def corr_run(ctx, name, vh_args, component_desc, nontrivial=lambda c: True, spec
         of = c.get("oracle_fail") or []
         if oracle_prefix:
             of = [o for o in of if o.startswith(oracle_prefix) or o.startswith("Go panic")]
+        if oracle_exclude:
+            of = [o for o in of if not o.startswith(oracle_exclude)]
         if of and i not in specbad:
             specbad.append(i)
     # a model/implementation difference concerns this property only when it shows in the observables the
